@@ -41,6 +41,8 @@ func runSched(t *testing.T, prefix []int, expect []bsched.Point, maxSteps int, b
 		s.RoundRobin = schedRoundRobin
 		SetGate(s.Gate)
 		defer SetGate(nil)
+		AlgGate = s.Gate
+		defer func() { AlgGate = nil }()
 		x.Obs = body(s)
 		x.Points = s.Points
 		x.Deadlock = s.Deadlock
